@@ -2,6 +2,7 @@ import Driver.Common
 import AslModel.Thread
 import AslModel.ThreadEnd
 import AslModel.ThreadTimed
+import AslModel.ThreadRounds
 /-! Model driver for C13: parallel_for index groups, thread kinds, semaphore ops, and the *acceptor* that
 replays a hook-point trace recorded from the real library on the `Handover` model. -/
 open Driver AslModel.Thread
@@ -43,7 +44,20 @@ def copiesFin (kind : String) : Nat :=
   | some true => 1
   | _ => 0
 
+open AslModel.Thread.Rounds in
+/-- `thr grp3 n`: three start/join rounds of the same `n` threads on the `Rounds` model (canonical schedule); per thread 1 iff
+    it had completed exactly `round` runs after every join, and its sticky finished flag -/
+def grp3 (n : Nat) : String :=
+  let oneRound (acc : Cfg × List Bool) : Cfg × List Bool :=
+    let c := run acc.1 (roundSched n)
+    (c, (List.range n).map fun i => (acc.2.getD i true) && c.runs i == c.rounds && !c.early)
+  let r := (List.range 3).foldl (fun acc _ => oneRound acc) (init n false, List.replicate n true)
+  let c := r.1
+  if c.rounds == 3 then s!"ran={ones (r.2.map fun b => if b then 1 else 0)} fin={ones ((List.range n).map fun i => if c.flag i then 1 else 0)}"
+  else "model-stuck"
+
 def thr (kind : String) (n : Nat) : String :=
+  if kind == "grp3" then grp3 n else
   let threads := if kind == "inv" then n - 1 else n
   let c := runToEnd threads (kind == "sub" || kind == "grp" || kind == "grp3" || kind == "reap")
   let ran := (List.range threads).map c.ran
